@@ -2,7 +2,8 @@
 from common import *
 import itertools, scripts
 
-THEOREMS = ['refines', 'decode_run', 'accepts_iff', 'accepts_consumes', 'rejects', 'accepts_runG', 'rejects_runG', 'definite_parent', 'indefinite_parent', 'suffix_lemma', 'pnv_eq']
+THEOREMS = ['refines', 'decode_run', 'accepts_iff', 'accepts_consumes', 'rejects', 'accepts_runG', 'rejects_runG', 'definite_parent', 'indefinite_parent', 'suffix_lemma', 'pnv_eq', 'body_rel_sw', 'vs_sw', 'parseSwitched_same', 'Bcder.Props.C02b.take_value_spec', 'Bcder.Props.C02b.readN_spec', 'Bcder.Props.C02b.readN_top', 'Bcder.Props.C02b.switched_spec']
+EXTRA_MODULES = ['C02b']
 RULE = ("run <mode> slice <octets> all  (read every value, descend, take primitive contents) on: trees generated from the grammar "
         "(depth <= 4, all tag sizes, every legal length form per mode, definite/indefinite mixes) encoded for the same or another mode, "
         "their structural mutations (identifier/length octets, child length vs parent +-1, EOC placement, truncation at every offset), "
@@ -92,5 +93,5 @@ def nontrivial(req, ans):
     return ans.startswith("ok v")
 
 LEVEL = "proof"
-LEVEL_TEXT = ("Lean 4 theorems, for ALL octet strings, all three modes and every enclosing context (top level; definite parent with any number of octets left, incl. more than the source holds; indefinite parent; any nesting depth): the generic reader over the model of Constructed::process_next_value (readAll/readValue in lean/Bcder/Model/Generic.lean) succeeds exactly when the X.690 sub-list grammar of lean/Bcder/Spec/Tlv.lean accepts, returns exactly the encoded trees (class, number, constructed flag, nesting, primitive contents, definite/indefinite form), nested values inherit the mode, and the source is left exactly behind the last value read (refines: DS/IS/US/VS; decode_run, accepts_iff, accepts_consumes, rejects for Mode::decode at top level; accepts_runG/rejects_runG lift to the generous layer the driver executes). pnv_eq gives process_next_value as a closed function of the limited view for ANY closure, the per-mode form checks included. Correspondence: the driver answers every purely generic read with both the tree reader and the trace reader and flags any difference; impl vs model vs grammar on ~100k inputs per quick run (all strings of <= 2 octets, boundary alphabet of <= 4 octets, damaged/valid structured inputs), exact-count reads, nested mode switches.")
-LEVEL_NOTE = ("Trusted: Lean 4.33 kernel; axioms propext, Classical.choice, Quot.sound only; the hand-written model (lean/Bcder/Model) tied to /repo on every run by differential correspondence (tools/check.py, harness/, lean/Driver.lean); the grammar lean/Bcder/Spec/Tlv.lean is the reading of X.690 that is trusted. Theorems are stated with an explicit recursion fuel shared by reader and grammar (the driver uses input length + 4; the Rust code is bounded by its stack instead); mode switches inside a read and reads of a caller-chosen number of values are covered by the correspondence check, not by a theorem. Stated on runG0 = SliceSource semantics; C07 carries capture-free reads to every conforming source.")
+LEVEL_TEXT = ("Lean 4 theorems, for ALL octet strings, all three modes and every enclosing context (top level; definite parent with any number of octets left, incl. more than the source holds; indefinite parent; any nesting depth): the generic reader over the model of Constructed::process_next_value (readAll/readValue in lean/Bcder/Model/Generic.lean) succeeds exactly when the X.690 sub-list grammar of lean/Bcder/Spec/Tlv.lean accepts, returns exactly the encoded trees (class, number, constructed flag, nesting, primitive contents, definite/indefinite form), nested values inherit the mode, and the source is left exactly behind the last value read (refines: DS/IS/US/VS; decode_run, accepts_iff, accepts_consumes, rejects for Mode::decode at top level; accepts_runG/rejects_runG lift to the generous layer the driver executes). pnv_eq gives process_next_value as a closed function of the limited view for ANY closure, the per-mode form checks included. The caller's choices (C02b): one mandatory generic read = the grammar's value at the front of the view (take_value_spec), n of them = n values in a row with the source exactly behind the n-th (readN_spec, readN_top), and a value whose content is read in another mode (Constructed::set_mode in the closure) = header under the outer mode, content under the inner one (switched_spec, parseSwitched; nested values inherit the inner mode through readAll). Correspondence: the driver answers every purely generic read with both the tree reader and the trace reader and flags any difference; impl vs model vs grammar on ~100k inputs per quick run (all strings of <= 2 octets, boundary alphabet of <= 4 octets, damaged/valid structured inputs), exact-count reads, nested mode switches.")
+LEVEL_NOTE = ("Trusted: Lean 4.33 kernel; axioms propext, Classical.choice, Quot.sound only; the hand-written model (lean/Bcder/Model) tied to /repo on every run by differential correspondence (tools/check.py, harness/, lean/Driver.lean); the grammar lean/Bcder/Spec/Tlv.lean is the reading of X.690 that is trusted. Theorems are stated with an explicit recursion fuel shared by reader and grammar (the driver uses input length + 4; the Rust code is bounded by its stack instead); reads of a caller-chosen number of values and a mode switch at a nested level are C02b (take_value_spec, readN_spec / readN_top: n mandatory generic reads succeed iff the grammar sees n values in a row, the source is left exactly behind the n-th and what follows is neither looked at nor consumed; switched_spec: a value whose content is read in another mode is accepted iff its header is well-formed under the outer mode and its content under the inner one, parseSwitched); other placements of set_mode (in the middle of a content) are covered by the correspondence check only. Stated on runG0 = SliceSource semantics; C07 carries capture-free reads to every conforming source.")
